@@ -392,3 +392,23 @@ def stale_loop_uses(func_node):
             if not live:
                 break
     return out
+
+
+def reaching_assign(node, name):
+    """the assignment to `name` that reaches `node` in straight-line code (nearest earlier sibling assignment in an enclosing block);
+    None when there is none or the nearest candidate is conditional"""
+    prev = node
+    for p in parent_chain(node):
+        for fld in ("body", "orelse", "finalbody"):
+            lst_ = getattr(p, fld, None)
+            if isinstance(lst_, list) and any(prev is s_ for s_ in lst_):
+                i = [k for k, s_ in enumerate(lst_) if prev is s_][0]
+                for s_ in reversed(lst_[:i]):
+                    if isinstance(s_, ast.Assign) and any(isinstance(t, ast.Name) and t.id == name for t in s_.targets):
+                        return s_
+                    if any(isinstance(x, ast.Name) and x.id == name and isinstance(x.ctx, ast.Store) for x in ast.walk(s_)):
+                        return None
+        if isinstance(p, (ast.FunctionDef, ast.AsyncFunctionDef)):
+            break
+        prev = p
+    return None
